@@ -147,6 +147,7 @@ func checkC08(c *Ctx) {
 	}
 	c.c08RangeVarAddress()
 	c.c08MapSwapUnderWalk()
+	c.c08DeferredUnlockInLoop()
 	// R08.2 for the janitor: an entry is deleted by deleteExpired in the critical section that examined it (C11 R11.2)
 	for _, b := range backends {
 		b := b
@@ -341,6 +342,72 @@ func (c *Ctx) c08MapSwapUnderWalk() {
 			r.OK("R08.4", b.Name+":map-identity", "the shard maps are installed at construction only; Walk's lock-dropping range stays on the live map")
 		}
 	}
+}
+
+// c08DeferredUnlockInLoop: `defer b.Unlock()` inside a loop releases at function exit, not at the end of the iteration: the locks
+// of all visited shards pile up, and the second entry that falls into an already visited shard locks a mutex this goroutine still
+// holds (self-deadlock). The path walk takes a loop body once, so it does not see the second visit; the shape is decided on the AST.
+func (c *Ctx) c08DeferredUnlockInLoop() {
+	r := c.R
+	info := c.Pkg.TypesInfo
+	n, bad := 0, false
+	c.eachFuncDecl(func(fd *ast.FuncDecl, fn *types.Func) {
+		name := strings.TrimPrefix(pw.FuncName(fn), "cache.")
+		isBackend := false
+		for _, b := range backends {
+			if sameRecvNamed(fn, b.Name) || sameRecvNamed(fn, b.Wrapper) {
+				isBackend = true
+			}
+		}
+		if !isBackend && !sameRecvNamed(fn, "hashedBucket") && !sameRecvNamed(fn, "hashedBucketOf") && !sameRecvNamed(fn, "shardedMapLegacyWalkerOf") {
+			return
+		}
+		var visit func(node ast.Node, inLoop bool)
+		visit = func(node ast.Node, inLoop bool) {
+			ast.Inspect(node, func(x ast.Node) bool {
+				switch s := x.(type) {
+				case *ast.FuncLit:
+					visit(s.Body, false) // a literal has its own defer scope
+					return false
+				case *ast.ForStmt:
+					if s.Body != nil && x != node {
+						visit(s.Body, true)
+						return false
+					}
+				case *ast.RangeStmt:
+					if s.Body != nil && x != node {
+						visit(s.Body, true)
+						return false
+					}
+				case *ast.DeferStmt:
+					n++
+					if !inLoop {
+						return true
+					}
+					if callee, _ := typeutil.Callee(info, s.Call).(*types.Func); callee != nil {
+						if op, isLock := lockOpName(pw.FuncName(callee)); isLock && (op == "Unlock" || op == "RUnlock") {
+							bad = true
+							r.Bad("R08.5", name, "deferred-unlock-in-loop", c.Pos(s.Pos()), "a shard lock taken inside a loop is released by defer, i.e. when the function returns: the next iteration that reaches the same shard locks a mutex this goroutine still holds", nil)
+						}
+					}
+				}
+				return true
+			})
+		}
+		visit(fd.Body, false)
+	})
+	if !bad {
+		r.OK("R08.5", "backends:defer-scope", fmt.Sprintf("no deferred unlock inside a loop (%d defer statements in backend methods)", n))
+	}
+}
+
+func lockOpName(fn string) (string, bool) {
+	for _, op := range []string{"RUnlock", "Unlock", "RLock", "Lock"} {
+		if strings.HasSuffix(fn, "sync.RWMutex."+op) || strings.HasSuffix(fn, "sync.Mutex."+op) || strings.HasSuffix(fn, "."+op) && strings.Contains(fn, "sync.") {
+			return op, true
+		}
+	}
+	return "", false
 }
 
 // reachesBackendCallback: does fn (through static in-package calls, up to depth levels) invoke one of the Trait's function-valued
